@@ -15,7 +15,7 @@ func VerifHarness_C09_Handler() {
 	ps := &prover.ProvingSystem{TreeDepth: verifNondetU32("depth"), BatchSize: verifNondetU32("batch"),
 		ProvingKey: verifStubPK("sys"), VerifyingKey: verifStubVK("sys"), ConstraintSystem: verifStubCS("sys")}
 	verifAssume(ps.TreeDepth <= 2 && ps.BatchSize <= 2)
-	h := proveHandler{provingSystem: ps, mode: mode}
+	h := verifDeploy(ps, mode)
 	w := verifRecorder()
 	r := &http.Request{Method: verifNondetString("method"), Body: verifBody()}
 	h.ServeHTTP(w, r)
